@@ -260,6 +260,7 @@ def rdgen_files(ex, st, prog, s, n, output):
 
     def openfile(e, fr, st_, args, ins):
         path = absp(args[0])
+        fsops.setdefault('flags', []).append(args[1])
         fobj = Opaque('file', (path, len(fsops['open'])))
         fsops['open'].append(path)
         oid = e.new_obj(st_, fobj)
@@ -309,6 +310,10 @@ def rdgen_files(ex, st, prog, s, n, output):
     res.append(('every file gets exactly n/8 bytes in one write', all(w[1] == n // 8 for w in fsops['write']) and len(written) == s,
                 str([w[1] for w in fsops['write']][:4])))
     res.append(('every file is closed', sorted(fsops['close']) == sorted(fsops['open']), ''))
+    # linux: O_WRONLY 1, O_RDWR 2, O_CREATE 0x40, O_TRUNC 0x200
+    fl = fsops.get('flags', [])
+    res.append(('files are opened for writing with O_CREATE|O_TRUNC (a pre-existing longer file must end up with exactly n/8 bytes)',
+                all(isinstance(f, int) and (f & 0x40) and (f & 0x200) and (f & 3) in (1, 2) for f in fl) and len(fl) == s, 'flags %s' % [hex(f) if isinstance(f, int) else f for f in fl][:3]))
     res.append(('the output directory is created', outdir in fsops['mkdir'], str(fsops['mkdir'])))
     # contents: each file holds bytes obtained by a read made for that file (fresh block per file)
     blocks = [w[2] for w in fsops['write']]
